@@ -728,8 +728,52 @@ def explore_subscribe_race(run, n):
         run.case(cj, nontrivial=True)
 
 
+def explore_fe_order(run, n):
+    """FabricEvent ordering far beyond what a schedule can queue up: pairs and triples of fabric events whose creation numbers
+    are up to 10^7 apart (a delivery thread that lags that far), all priorities a caller may pass: `<` is the lexicographic
+    order of (priority, creation number), and a PriorityQueue filled with them drains in that order"""
+    import itertools, queue as _queue
+    rng = run.rng
+    for _ in range(n):
+        k = rng.randint(2, 6)
+        prios = [rng.choice([1, 2, 3, 5, 7, 999, 1000, 1000, 10 ** 6, 0]) for _ in range(k)]
+        gaps = [rng.choice([1, 1, 2, 40, 70000, 10 ** 6, 10 ** 7]) for _ in range(k)]
+        seqs, cur = [], rng.choice([0, 5, 65530, 2 ** 31 - 3])
+        for g in gaps:
+            cur += g
+            seqs.append(cur)
+        saved = mao.FabricEvent.sequence
+        try:
+            mao.FabricEvent.sequence = iter(seqs)
+            fes = [mao.FabricEvent(Event(signal="S0", payload=i), prios[i]) for i in range(k)]
+        finally:
+            mao.FabricEvent.sequence = saved
+        cj = {"what": "fe-order", "priorities": prios, "creation_numbers": seqs}
+        run.count("fabric-event comparator probe")
+        run.traces_validated += 1
+        bad = None
+        for i in range(k):
+            for j in range(k):
+                if i != j and (fes[i] < fes[j]) != ((prios[i], seqs[i]) < (prios[j], seqs[j])):
+                    bad = "event (priority %d, created %d) < event (priority %d, created %d) is %s" % (
+                        prios[i], seqs[i], prios[j], seqs[j], fes[i] < fes[j])
+        pq = _queue.PriorityQueue()
+        for fe in fes:
+            pq.put(fe)
+        drained = [pq.get().event.payload for _ in range(k)]
+        want = sorted(range(k), key=lambda i: (prios[i], seqs[i]))
+        if bad is None and drained != want:
+            bad = "a PriorityQueue filled with them drains as %s, expected %s" % (drained, want)
+        if bad:
+            run.violate("C08/comparator", "fabric events with priorities %s created as numbers %s: %s" % (prios, seqs, bad), cj)
+        run.case(cj, nontrivial=True)
+
+
 def replay(case):
     cc = case.get("case", case)
+    if cc.get("what") == "fe-order":
+        print(cc)
+        return 0
     if cc.get("what") == "subscribe-race":
         import small_corr
         sched_list = list(cc["schedule"])
